@@ -200,6 +200,20 @@ CHECKS = {
          "caught up (5 s budget).",
     technique="TLA+ code tables / request lattice + TLC; differential lock-step replay over real gRPC; child-process fault probe; TLC trace validation",
     ref="5.11"),
+ "C13": dict(
+    level="model_checking",
+    text="The ring/bookmark model (WatchLog.tla) carries the arithmetic a resume relies on (recent bookmarks accepted, accepted "
+         "bookmarks retained). TLC-simulated schedules of writes, watch starts (single, kind, aggregated, every option), consumer "
+         "receives, transport faults (Recv fails; the next 0-2 re-Watch attempts fail) and pauses of up to 20 virtual minutes "
+         "drive the real client adapter against the real server through an in-process stream shim inside a synctest bubble, "
+         "while writes continue during the outage; everything the subscriber received is judged by TLC with the same judge as "
+         "local watches (TraceWatch.tla: exact prefix of the committed log after the start contents - no gap, duplicate, "
+         "reorder, bootstrap re-delivery - nothing missing at the end) plus: a terminal Errored after a fault is accepted only "
+         "if retries are disabled, no bookmark had been seen, or the last bookmark is no longer valid.",
+    note="Trusted: TLC, synctest virtual time, the stream shim (harness code implementing grpc stream interfaces). Outages are "
+         "shorter than the 15 min retry budget; real-wire server restarts are not driven.",
+    technique="TLA+ ring/bookmark model + TLC; fault-schedule replay of the real client/server pair in virtual time; TLC trace validation",
+    ref="5.13"),
 }
 
 NOT_YET = "check not built yet in this round (planned, see DESIGN.md section 5)"
